@@ -87,7 +87,7 @@ Section Gen.
     induction ids as [|j ids IH]; intros s Hs Hids; cbn [rem_list].
     - repeat split; cbn [fst snd]; [discriminate|apply fsub_refl].
     - assert (Hids' : forall j0, In j0 ids -> alookup j0 F0 <> None) by (intros; apply Hids; right; auto).
-      destruct (String.eqb j skip); [apply IH; auto|].
+      destruct (skipped skip j); [apply IH; auto|].
       assert (Hok : okcall s j).
       { apply Hrec; auto. destruct (alookup j (st_facts s)) eqn:E; [left; discriminate|right].
         eapply fsub_shrink; eauto. apply Hids. left; auto. }
@@ -116,7 +116,8 @@ Section Gen.
     - match goal with |- context [rem_list rem1 s1 ?ids ?skip now] =>
         destruct (rem_list_gen skip ids s1) as (G1 & G2 & G3) end.
       + eapply fsub_trans; eauto.
-      + intros j Hj. destruct (H4 found eq_refl j Hj) as [H|H]; [contradiction|exact H].
+      + intros j Hj. apply dw_targets_sub in Hj.
+        destruct (H4 found eq_refl j Hj) as [H|H]; [contradiction|exact H].
       + repeat split; auto. eapply fsub_trans; eauto.
     - repeat split; cbn [fst snd]; auto; discriminate.
     - repeat split; cbn [fst snd]; auto; discriminate.
@@ -488,7 +489,7 @@ Section NoPanic.
   Lemma rem_list_not_panic skip now w : forall ids s, snd (rem_list rr s ids skip now) <> Panic w.
   Proof.
     induction ids as [|j r IH]; intros s; cbn [rem_list]; [discriminate|].
-    destruct (String.eqb j skip); [apply IH|].
+    destruct (skipped skip j); [apply IH|].
     pose proof (rr_np s j now) as H.
     destruct (rr s j now) as [s1 [b|e|w'|]]; cbn [snd] in *; try discriminate; [apply IH|].
     intros E. apply (H w'). reflexivity.
